@@ -25,7 +25,11 @@ static int64_t tol_for(int64_t B, int terms) {
 static std::string body(const J &c, double *errout) {
     const std::string op = c["op"].s();
     const int64_t B = c["B"].i();
-    const int terms = (int)c["terms"].i(1);
+    int terms = (int)c["terms"].i(1);
+    // The un-reduced sum of `terms` products reaches terms*N*B*2^31; it has to stay inside the int64 range of the final conversion
+    // (a single product at B = 2^20 is 2^61).  Above 2^15 at most two products are accumulated: more would leave the representable
+    // range, which is outside what the property (a statement about products and their commutation with the transforms) covers.
+    if (B > 32768 && terms > 2) terms = 2;
     std::vector<std::vector<int32_t>> ia(terms, std::vector<int32_t>(N));
     std::vector<std::vector<uint32_t>> tb(terms, std::vector<uint32_t>(N));
     for (int t = 0; t < terms; t++) {
@@ -122,7 +126,7 @@ static std::string run_case(const J &c, std::string &sig) {
     } else {
         double e = 0;
         why = body(c, &e);
-        std::string key = "maxerr_units_" + c["op"].s() + "_B" + std::to_string(c["B"].i()) + (c["terms"].i(1) > 1 ? "_terms" + std::to_string(c["terms"].i()) : "");
+        std::string key = "maxerr_units_" + c["op"].s() + "_B" + std::to_string(c["B"].i()) + (c["terms"].i(1) > 1 ? "_terms" + std::to_string(c["B"].i() > 32768 ? std::min<int64_t>(2, c["terms"].i()) : c["terms"].i()) : "");
         if (e > g_maxerr[key]) g_maxerr[key] = e;
     }
     return why;
